@@ -819,7 +819,17 @@ class FunctionParser(BaseParser):
         self, generator: AsyncGenerator, context: RuntimeContext
     ):
         i = 0
-        async for item in generator:
+        sent = None
+        while True:
+            try:
+                # the value returned by asend() is the next item of the generator, just like __anext__()
+                if sent is not None:
+                    item = await generator.asend(sent)
+                else:
+                    item = await generator.__anext__()
+            except StopAsyncIteration:
+                return
+
             if inspect.isasyncgen(item):
                 generator = item
                 continue
@@ -850,11 +860,6 @@ class FunctionParser(BaseParser):
                             origin_exc=e,
                         )
                         context.handle_error(error, force_raise=True)
-                # await generator.asend(sent)
-                try:
-                    await generator.asend(sent)
-                except StopAsyncIteration:
-                    return
             i += 1
 
     def get_async_generator(
@@ -888,13 +893,17 @@ class FunctionParser(BaseParser):
         @wraps(self.obj)
         async def async_generator(*args, **kwargs):
             async_gen = eager_generator(*args, **kwargs)
-            async for item in async_gen:
-                sent = yield item
-                if sent is not None:
-                    try:
-                        await async_gen.asend(sent)
-                    except StopAsyncIteration:
-                        return
+            sent = None
+            while True:
+                try:
+                    if sent is not None:
+                        item = await async_gen.asend(sent)
+                    else:
+                        item = await async_gen.__anext__()
+                except StopAsyncIteration:
+                    return
+                else:
+                    sent = yield item
 
         return async_generator
 
